@@ -88,41 +88,71 @@ def namePart (s : Bytes) : Option Nat :=
   | 0x2a :: _ => some 1
   | _ => Path.ncname s
 
+/-- number of leading white-space bytes -/
+def wsLen : Bytes → Nat
+  | [] => 0
+  | c :: r => if Path.isWs c then wsLen r + 1 else 0
+
+/-- F352 repaired (`XpConsts.starNoPrefix`): a first part `*` is never taken as a prefix -/
+def starStop (st : St) : Bool := XpConsts.starNoPrefix && st.rest.head? == some 0x2a
+
+/-- the NameTest is the `n` bytes measured so far -/
+def namePlain (st : St) (n : Nat) (hasAxis : Bool) : Except Nat St :=
+  let nt := st.rest.head? != some 0x2a
+  .ok { (st.push .nametest n) with ntype := nt, func := nt && !hasAxis }
+
 /-- the final `else` branch after a possible axis: NameTest of which `n` bytes (`*` or an NCName) are already measured -/
 def nameTail (st : St) (n : Nat) (hasAxis : Bool) : Except Nat St :=
   match st.rest.drop n with
   | 0x3a :: after =>
-    match after with
-    | 0x2a :: _ => .ok { (st.push .nametest (n + 2)) with ntype := false, func := false }
-    | _ =>
-      match Path.ncname after with
-      | none => .error st.pos
-      | some m => .ok { (st.push .nametest (n + 1 + m)) with ntype := false, func := false }
-  | _ =>
-    let nt := st.rest.head? != some 0x2a
-    .ok { (st.push .nametest n) with ntype := nt, func := nt && !hasAxis }
+    if starStop st then namePlain st n hasAxis
+    else
+      match after with
+      | 0x2a :: _ => .ok { (st.push .nametest (n + 2)) with ntype := false, func := false }
+      | _ =>
+        match Path.ncname after with
+        | none => .error st.pos
+        | some m => .ok { (st.push .nametest (n + 1 + m)) with ntype := false, func := false }
+  | _ => namePlain st n hasAxis
+
+/-- F351 repaired (`XpConsts.axisWs`): white space that may stand between an AxisName and `::` -/
+def axisGap (r : Bytes) : Nat := if XpConsts.axisWs then wsLen r else 0
+
+/-- `parsed += ws_len` -/
+def St.skip (st : St) (w : Nat) : St := { st with pos := st.pos + w, rest := st.rest.drop w }
+
+/-- F351 repaired: white space after `::` is skipped -/
+def afterDcolon (st : St) : St := if XpConsts.axisWs then st.skip (wsLen st.rest) else st
+
+/-- the state after an AxisName of `n` bytes and `::` were stored (`parsed` at the node test) -/
+def axisSt (st : St) (n : Nat) : St :=
+  afterDcolon (((st.push .axisname n).skip (axisGap (st.rest.drop n))).push .dcolon 2)
 
 /-- the final `else` branch: `(AxisName '::')? ((NCName ':')? '*' | QName)` -/
 def lexName (st : St) : Except Nat St :=
   match namePart st.rest with
   | none => .error st.pos
   | some n =>
-    if startsWith (st.rest.drop n) [0x3a, 0x3a] then
+    if startsWith (st.rest.drop (n + axisGap (st.rest.drop n))) [0x3a, 0x3a] then
       if XpConsts.axisNames.contains (st.rest.take n) then
-        let st2 := (st.push .axisname n).push .dcolon 2
-        match namePart st2.rest with
-        | none => .error st2.pos
-        | some n2 => nameTail st2 n2 true
+        match namePart (axisSt st n).rest with
+        | none => .error (axisSt st n).pos
+        | some n2 => nameTail (axisSt st n) n2 true
       else .error st.pos
     else nameTail st n false
 
-/-- the operator branch (previous token is an operand or `)` `]`): `*`, `or`, `and`, `mod`, `div` — tested as PREFIXES of the
-remaining input (`strncmp`), anything else is an error -/
+/-- F350 repaired (`XpConsts.operNameWhole`): the operator name must be the whole NCName at `parsed`
+(`ncname_len == strlen(name)`); unrepaired: it is tested as a PREFIX of the remaining input (`strncmp`) -/
+def operName (st : St) (nm : Bytes) : Bool :=
+  startsWith st.rest nm && (!XpConsts.operNameWhole || Path.ncname st.rest == some nm.length)
+
+/-- the operator branch (previous token is an operand or `)` `]`): `*`, `or`, `and`, `mod`, `div`, anything else is an
+error -/
 def lexOper (st : St) : Except Nat St :=
   if startsWith st.rest [0x2a] then .ok (st.push .operMath 1)
-  else if startsWith st.rest [0x6f, 0x72] then .ok (st.push .operLog 2)
-  else if startsWith st.rest [0x61, 0x6e, 0x64] then .ok (st.push .operLog 3)
-  else if startsWith st.rest [0x6d, 0x6f, 0x64] || startsWith st.rest [0x64, 0x69, 0x76] then .ok (st.push .operMath 3)
+  else if operName st [0x6f, 0x72] then .ok (st.push .operLog 2)
+  else if operName st [0x61, 0x6e, 0x64] then .ok (st.push .operLog 3)
+  else if operName st [0x6d, 0x6f, 0x64] || operName st [0x64, 0x69, 0x76] then .ok (st.push .operMath 3)
   else .error st.pos
 
 /-- last part of the `if … else if …` chain: the operators written with special characters, then the two branches for
@@ -178,11 +208,6 @@ def lexStep (st : St) : Except Nat St :=
   | [] => lexName st               -- only reachable for an all-white-space string: the NUL is no name start
   | c :: r => lexChar st c r
 
-/-- number of leading white-space bytes -/
-def wsLen : Bytes → Nat
-  | [] => 0
-  | c :: r => if Path.isWs c then wsLen r + 1 else 0
-
 def St.skipWs (st : St) : St := { st with pos := st.pos + wsLen st.rest, rest := st.rest.drop (wsLen st.rest) }
 
 inductive LexErr
@@ -207,11 +232,16 @@ def lex (s : Bytes) : Except LexErr (List Tok) :=
   if s.isEmpty then .error (.at 0)
   else lexLoop (s.length + 1) (St.skipWs { acc := [], ntype := false, func := false, pos := 0, rest := s })
 
+/-- every byte of `s` at an offset in `[a, b)` is white space or the `$` of a variable reference -/
+def GapOK (s : Bytes) (a b : Nat) : Prop := ∀ i c, a ≤ i → i < b → s[i]? = some c → Path.isWs c = true ∨ c = 0x24
+
 /-- specification predicate for token arrays, read from the LAST token backwards (`acc` = last token first): every token
-is the slice of `s` at its offset (`tok_pos`, `tok_len`), ends at or before `bound`, and the token before it ends at or before
-its offset — the tokens are non-overlapping substrings of the input, in order -/
+is the slice of `s` at its offset (`tok_pos`, `tok_len`), ends at or before `bound`, the bytes between its end and `bound`
+are white space (or `$`), and the same holds for the tokens before it up to its offset; before the first token there is
+only white space — the tokens are non-overlapping substrings of the input, in order, and cover everything but blanks -/
 def Chain (s : Bytes) : Nat → List Tok → Prop
-  | _, [] => True
-  | bound, t :: r => t.pos + t.text.length ≤ bound ∧ t.text = (s.drop t.pos).take t.text.length ∧ Chain s t.pos r
+  | bound, [] => GapOK s 0 bound
+  | bound, t :: r => t.pos + t.text.length ≤ bound ∧ t.text = (s.drop t.pos).take t.text.length ∧
+      GapOK s (t.pos + t.text.length) bound ∧ Chain s t.pos r
 
 end LyModel.XPath.Lex
